@@ -110,7 +110,6 @@ structure State where
   holders : List Holder := []
   prunes : List Prune := []
   -- ghost
-  phantom : Nat := 0                  -- `pending_conns` leaked by a failed transfer disconnect
   home : List (Nat × Nat) := []       -- conn id ↦ name of the database it was opened for
   live : List Nat := []               -- connections the backend considers open
   err : Option String := none         -- the real code would have raised here
@@ -188,6 +187,9 @@ def schedXfer (s : State) (f : Nat) (c : Nat) (t : Nat) (byHolder : Bool := fals
 def schedDiscard (s : State) (u : Nat) (c : Nat) (byHolder : Bool := false) : State :=
   s.addTask (.disc u c false byHolder)
 
+/-- the future of waiter `r` gets its result -/
+def setWoken (r : Nat) (w : Waiter) : Waiter := if w.id == r then { w with st := .woken } else w
+
 /-- `Block._wakeup_next_waiter` (the queue only holds pending futures) -/
 def wakeNext (s : State) (u : Nat) : State :=
   match s.find u with
@@ -195,8 +197,7 @@ def wakeNext (s : State) (u : Nat) : State :=
     match b.queue with
     | [] => s
     | r :: rest =>
-      let s := s.mod u fun b => { b with queue := rest }
-      { s with waiters := s.waiters.map fun w => if w.id == r then { w with st := .woken } else w }
+      { (s.mod u fun b => { b with queue := rest }) with waiters := s.waiters.map (setWoken r) }
   | none => s
 
 /-- `Block.release(conn)` -/
@@ -371,14 +372,15 @@ def lend (s : State) (r u c : Nat) : State :=
       { s with holders := s.holders ++ [⟨r, b.name, c⟩] }
     | _ => s.fail "acquire: conn in use or unknown"
 
+/-- the futures of the waiters in `q` get the exception -/
+def setAborted (q : List Nat) (w : Waiter) : Waiter := if q.contains w.id then { w with st := .aborted } else w
+
 /-- `Block.abort_waiters(e)` -/
 def abortWaiters (s : State) (u : Nat) : State :=
   match s.find u with
   | none => s
   | some b =>
-    let q := b.queue
-    let s := s.mod u fun b => { b with queue := [] }
-    { s with waiters := s.waiters.map fun w => if q.contains w.id then { w with st := .aborted } else w }
+    { (s.mod u fun b => { b with queue := [] }) with waiters := s.waiters.map (setAborted b.queue) }
 
 /-- the `while not waiters and pending: try_acquire()` loop of
     `prune_inactive_connections`, then the `gather` of the discards -/
@@ -570,9 +572,9 @@ def discDone (s : State) (tid : Nat) (ok : Bool) : State :=
   | some (.discAll c true) =>
     { (s.dropTask tid) with cur := s.cur - 1, live := s.live.filter (· != c) }
   | some (.xfer f c t 1 h) =>
-    let s := { s with live := s.live.filter (· != c) }
-    if ok then s.setTask tid (.xfer f c t 2 h)          -- cur - 1 + 1, connect callback called
-    else { (s.dropTask tid) with cur := s.cur - 1, phantom := s.phantom + 1 }
+    -- `_transfer` (since 6ff8693): a failed disconnect is logged and the transfer goes on:
+    -- `cur - 1` (`_disconnect`) `+ 1`, then the connect callback is called
+    { (s.setTask tid (.xfer f c t 2 h)) with live := s.live.filter (· != c) }
   | _ => s.fail "discDone: no such disconnect in flight"
 
 /-- `for block in to_drop: _drop_block(block)`; `false` = an assertion failed -/
